@@ -327,7 +327,22 @@ theorem one_request_one_response_per_exchange (reqData : List Bytes) (r : Result
   · have hle : r.notified.length ≤ k := by omega
     rw [Nat.min_eq_right hle, List.take_of_length_le hle]; simp
 
+/-- **C04 `revisit_block_is_wire_prefix`.**  When the de-duplication table reports the payload
+as seen, the record becomes a revisit record whose block is the recorded response cut at
+`_find_payload_offset`: a prefix of the reported bytes, hence — for every byte stream and
+schedule — a prefix of what the server sent for that response, and nothing else. -/
+theorem revisit_block_is_wire_prefix (h : dc.Hom) (cfg : StreamCfg) (req : ReqInfo) (σ : List Nat) (w : Wire)
+    (st : Status) (f : Fields) (b : Bytes) (hok : (decode dc cfg req σ w).outcome = .ok st f b) :
+    revisitBlock (decode dc cfg req σ w).notified <+: w.bytes := by
+  have hr := (reported_equals_consumed h cfg req σ w st f b hok).1
+  unfold revisitBlock
+  rw [hr, List.take_take]
+  exact List.take_prefix _ _
+
 /-! ## Non-vacuity -/
+
+example : revisitBlock (lit "HTTP/1.1 200 OK\nX: a\n b\n\nbody\n\nmore") = lit "HTTP/1.1 200 OK\nX: a\n b\n\n" := by decide
+example : revisitBlock (decode idDecoder {} {} [] exMsg).notified = exMsg.bytes.take 38 := by decide
 
 example : (decode idDecoder {} {} [0] exChunked).notified = exChunked.bytes := by decide
 example : (decode idDecoder {} {} [] exMsg).notified = exMsg.bytes.take 40 ∧
